@@ -29,3 +29,79 @@ Example C20_patch_example :
                                      (L ("#define B(y) (y+1)" ++ String "010" "#define NEW 7" ++ String "010" "")))
   = Some ["#define NEW 7"; "#define A 1"; "#define B(y) (y+1)"; "#define A 2"; "#define C 3"].
 Proof. vm_compute. reflexivity. Qed.
+
+(* ------------------------------------------------------------------ general theorems (proofs/PatchProofs.v), for ALL macro files and patch files *)
+From Coq Require Import Permutation.
+From RZ.proofs Require Import PreProofs PatchProofs.
+Local Open Scope list_scope.
+
+(* patch_macros as ONE equation: it fails exactly when a cleaned line is not a `#define` line (AttributeError in the code);
+   otherwise the result is the patches that name no definition (reversed: each is inserted at index 0) followed by one
+   left-to-right pass that replaces the FIRST definition of every patched name by its patch, drops the later definitions
+   of a patched name and keeps every other line, in order. *)
+Theorem C20_patch_macros_spec : forall macros content,
+  patch_macros macros content =
+  match read_patches content with
+  | None => None
+  | Some p =>
+      if forallb (has_name define_name) macros
+      then Some (rev (map snd (filter (fun kv => negb (occurs define_name (fst kv) macros)) p)) ++ patch_spec define_name macros p [])
+      else None
+  end.
+Proof. exact patch_macros_spec. Qed.
+Print Assumptions C20_patch_macros_spec.
+
+(* each patch is applied exactly once iff its name is defined, never twice; applied + left-over patches are exactly the patch file's
+   dictionary; unpatched definitions are preserved with order and multiplicity *)
+Theorem C20_each_patch_once : forall macros content res,
+  patch_macros macros content = Some res ->
+  exists p items lft,
+    read_patches content = Some p /\ NoDup (keys p) /\
+    tloop define_name macros p [] = Some (items, lft) /\
+    res = rev (map snd lft) ++ map item_line items /\
+    Permutation p (used items ++ lft) /\
+    NoDup (keys (used items)) /\
+    (forall k, In k (keys (used items)) <-> In k (keys p) /\ In (Some k) (map define_name macros)) /\
+    (forall k v, In (k, v) (used items) -> assoc_get k p = Some v) /\
+    lft = filter (fun kv => negb (occurs define_name (fst kv) macros)) p /\
+    kept items = filter (fun l => match define_name l with Some n => negb (has_patch p n) | None => false end) macros.
+Proof. exact patch_macros_C20. Qed.
+Print Assumptions C20_each_patch_once.
+
+(* do { } while (0): total (the model's fuel always suffices), the identity exactly when no wrapper is found, and on a line
+   `pre do { b } while (0) post` without a second wrapper the result is pre ++ b ++ post *)
+Theorem C20_do_while_total : forall code,
+  (do_while_step code = None /\ replace_do_while_0 code = Some code) \/
+  (exists t r, do_while_step code = Some t /\ replace_do_while_0 code = Some (r ++ [nl]) /\ do_while_step r = None /\ List.length r + 12 <= List.length code).
+Proof. exact replace_do_while_0_total. Qed.
+Print Assumptions C20_do_while_total.
+Theorem C20_do_while_removes_exactly_the_wrapper : forall pre s1 b s2 s3 post,
+  nonl pre -> blanks s1 -> nonl b -> blanks s2 -> blanks s3 -> nonl post ->
+  contains (s2l "do") b = false -> contains (s2l "do") post = false -> existsb (Ascii.eqb "}"%char) post = false ->
+  do_while_step (pre ++ b ++ post) = None ->
+  replace_do_while_0 (pre ++ wrapped s1 b s2 s3 post) = Some (pre ++ b ++ post ++ [nl]).
+Proof. exact replace_do_while_0_one. Qed.
+Print Assumptions C20_do_while_removes_exactly_the_wrapper.
+(* what the function does NOT guarantee (kept visible): text on OTHER lines of a multi-line argument is dropped - the call site
+   passes single lines, so this is not reachable from remove_onetime_do_whiles *)
+Example C20_multiline_argument_refuted :
+  replace_do_while_0 (s2l "x;" ++ [nl] ++ s2l "do { y } while (0)" ++ [nl] ++ s2l "z;") = Some (s2l " y " ++ [nl]).
+Proof. exact dw_drops_other_lines_refuted. Qed.
+
+(* the CALL SITE (remove_onetime_do_whiles) passes each element of readlines(): one line ending in one newline.  On such input
+   the function sees exactly the line (the terminator is invisible to the regex), and the result is again one terminated line
+   without a wrapper: the multi-line effect above is unreachable from the call site. *)
+Theorem C20_do_while_call_site_shape : forall code, nonl code ->
+  exists r, replace_do_while_0 (code ++ [nl]) = Some (r ++ [nl]) /\ nonl r /\ do_while_step r = None /\ List.length r <= List.length code.
+Proof. exact replace_do_while_0_line_shape. Qed.
+Print Assumptions C20_do_while_call_site_shape.
+Theorem C20_do_while_call_site_line : forall pre s1 b s2 s3 post,
+  nonl pre -> blanks s1 -> nonl b -> blanks s2 -> blanks s3 -> nonl post ->
+  contains (s2l "do") b = false -> contains (s2l "do") post = false -> existsb (Ascii.eqb "}"%char) post = false ->
+  do_while_step (pre ++ b ++ post) = None ->
+  replace_do_while_0 ((pre ++ wrapped s1 b s2 s3 post) ++ [nl]) = Some (pre ++ b ++ post ++ [nl]).
+Proof. exact replace_do_while_0_one_line. Qed.
+Print Assumptions C20_do_while_call_site_line.
+Theorem C20_do_while_call_site_identity : forall code, nonl code -> do_while_step code = None ->
+  replace_do_while_0 (code ++ [nl]) = Some (code ++ [nl]).
+Proof. exact replace_do_while_0_line_id. Qed.
